@@ -288,7 +288,24 @@ def project_frame(case, obs):
 
 # ------------------------------------------------------------------ lint
 # Expected iteration sites of x/ccv/provider/keeper: [prefix byte, form] (forms: see harness/c13/lint_test.go).
-EXPECTED_SITES = []
+EXPECTED_SITES = [
+    [6, 2],    # GetAllChannelToConsumers: whole ChannelIdToConsumerId space
+    [7, 2],    # GetAllConsumersWithIBCClients: whole ConsumerIdToClientId space (legacy space, never per consumer)
+    [13, 2],   # GetAllValsetUpdateBlockHeights
+    [22, 1], [22, 2],   # GetAllValidatorConsumerPubKeys(consumerId / nil)
+    [23, 1], [23, 2],   # GetAllValidatorsByConsumerAddr(consumerId / nil)
+    [27, 2],   # GetAllConsumerRewardDenoms
+    [31, 1], [31, 1], [31, 1],   # getValSet / deleteValSet / getTotalPower via GetConsumerChainConsensusValidatorsKey
+    [32, 1], [32, 1],   # GetAllOptedIn, DeleteAllOptedIn
+    [36, 1], [36, 1], [36, 1],   # GetAllowList, DeleteAllowlist, IsAllowlistEmpty
+    [37, 1], [37, 1], [37, 1],   # GetDenyList, DeleteDenylist, IsDenylistEmpty
+    [39, 1],   # GetAllCommissionRateValidators
+    [41, 1], [41, 4],   # GetAllConsumerAddrsToPrune, ConsumeConsumerAddrsToPrune (range)
+    [42, 2], [42, 2], [42, 2], [42, 2],   # LastProviderConsensusValSet: get / delete / total power / setValSet
+    [51, 2], [52, 2],   # ConsumeIdsFromTimeQueue for the spawn and removal queues
+    [56, 1], [56, 1], [56, 1],   # GetPriorityList, DeletePrioritylist, IsPrioritylistEmpty
+    [59, 2], [59, 2],   # ConsumeIdsFromTimeQueue (infraction schedule), GetConsumerInfractionUpdateTime
+]
 
 
 def gen_lint(rng, tier):
